@@ -318,6 +318,35 @@ def check_shared_default(kw, d, order, target, out, stats):
     stats["shared-default-ok"] = stats.get("shared-default-ok", 0) + 1
 
 
+def check_shared_node(shape, d, out, stats):
+    """one schema dict *object* that carries its own default, reached three times in one `parse` (two properties and a
+    definition — what resolving `$ref`s produces): every use carries the default"""
+    from statham.schema.parser import parse
+    shared = SHAPES[shape](d)
+    schema = {"type": "object", "title": "Outer", "properties": {"first": shared, "second": shared}, "definitions": {"name": shared}}
+    case = {"shared_node": {"shape": shape, "default": core.enc_val(d)}}
+    out.note_case(case, True)
+    doc = core.copy.deepcopy(schema)                       # deepcopy keeps the sharing
+    try:
+        elements = parse(doc)
+    except Exception:  # noqa: BLE001
+        return
+    want = core.enc_val(d)
+    uses = {"first": elements[0].properties["first"].element, "second": elements[0].properties["second"].element}
+    if len(elements) > 1:
+        uses["definition"] = elements[1]
+    if shape == "reduces-to-nothing":
+        return
+    dumps = {k: core.dump_elem(e) for k, e in uses.items()}
+    for k, dump in dumps.items():
+        top = dump.get("kw", {}).get("default", "<none>")
+        if top != want:
+            out.failures.append({"case": case, "what": f"use {k!r} of the shared schema carries default {top!r}, expected {want!r} "
+                                 f"(uses: { {n: x.get('kw', {}).get('default', '<none>') for n, x in dumps.items()} })", "finding": None})
+            return
+    stats["shared-node-ok"] = stats.get("shared-node-ok", 0) + 1
+
+
 def run(ctx, scale=1.0):
     rng = random.Random(ctx["seed"] + 7)
     out = Outcome()
@@ -358,6 +387,10 @@ def run(ctx, scale=1.0):
                 for order in ("plain-first", "wrapped-first"):
                     for target in ("leaf", "array"):
                         check_shared_default(kw, d, order, target, out, stats)
+        # a schema node with its own default, shared by several users
+        for shape in SHAPES:
+            for d in FALSY[:3] + TRUTHY[:3]:
+                check_shared_node(shape, d, out, stats)
     finally:
         drv.close()
     out.stats = stats
@@ -378,6 +411,9 @@ def _replay_case(case):
     try:
         if "twins" in case:
             check_description_twins(case["twins"][0], case["twins"][1], case["place"], out, stats)
+        elif "shared_node" in case:
+            from harness import dsl as _dsl
+            check_shared_node(case["shared_node"]["shape"], _dsl.dec_val(case["shared_node"]["default"]), out, stats)
         elif "shared_default" in case:
             sd = case["shared_default"]
             from harness import dsl as _dsl
